@@ -519,7 +519,12 @@ def check_left_inverse(ctx, ir):
         if s is None:
             continue
         n += 1
-        decide_equal(ctx, R, what, file, '%s|%s|%s|left-inverse' % (R, file, fn), s.value('ret'), i,
+        try:
+            got_ = s.value('ret')
+        except (KeyError, Undecided) as e:
+            ctx.undecided(R, what, 'no defined return value on every path (%s): a component may be read uninitialised' % e, file)
+            continue
+        decide_equal(ctx, R, what, file, '%s|%s|%s|left-inverse' % (R, file, fn), got_, i,
                      'reduces to i by Mod(e,d) = e - d*Div(e,d)', what)
     what = 'longIndex(coordsOf(i, dims), dims)'
     accepted = []
@@ -1525,6 +1530,34 @@ def check_iterators(ctx, ir):
             ctx.undecided(R, inst, str(e), SEQ)
             continue
         layout[nd] = (itoffs, cur)
+        # Object invariant: members that begin() and end() - the only sources of iterators - both fill with the same function of the
+        # extents (cached strides, products, ...), and that no mutator writes.  Members of an existing iterator are read as that
+        # function of its extent members when its operations are compared with reshape().
+        inv = {}
+        try:
+            sb_ = ir.summary(R, inst, 'K_begin%d' % nd, SEQ)
+            to_it = {dims[k_]: sym('it[%d]' % itoffs[k_]) for k_ in range(nd)}
+            for sl_ in se.slots():
+                mo = re.match(r'^out\[(\d+)\]$', sl_)
+                if not mo or int(mo.group(1)) in itoffs + (cur,) or sb_ is None or sl_ not in sb_.slots():
+                    continue
+                ve, vb = se.values(sl_), sb_.values(sl_)
+                if len(ve) == len(se.paths) and len(vb) == len(sb_.paths) and len({t for _, t in ve} | {t for _, t in vb}) == 1:
+                    t_ = ve[0][1]
+                    if t_.free_symbols <= set(dims) and not I.all_atoms(t_):
+                        inv['it[%d]' % int(mo.group(1))] = t_.xreplace(to_it)
+            for mut in ('K_preinc%d' % nd, 'K_postinc%d' % nd):
+                sm_ = ir.summary(R, inst, mut, SEQ) if inv else None
+                if sm_ is not None:
+                    for k_ in list(inv):
+                        if k_ in sm_.slots() and not all(I.equal(t, inv[k_]) for _, t in sm_.values(k_)):
+                            del inv[k_]          # a mutator changes it: not an invariant
+        except (Undecided, KeyError):
+            inv = {}
+        iopts = dict(inputs=(lambda nm_, ty_, _inv=dict(inv): _inv.get(nm_))) if inv else {}
+        if inv:
+            ctx.assume('R-C17-4: members of a multidim_index_iterator<%d> that begin() and end() both derive from the extents (%s) and no '
+                       'mutator writes are read as that function of the extents' % (nd, ', '.join('%s = %s' % kv for kv in sorted(inv.items()))))
         for which, want, txt in (('begin', sp.Integer(0), '0'), ('end', total, 'total_indices()')):
             inst = 'index_sequence_%dD::%s' % (nd, which)
             s = ir.summary(R, inst, 'K_%s%d' % (which, nd), SEQ)
@@ -1545,7 +1578,7 @@ def check_iterators(ctx, ir):
                 ctx.undecided(R, inst, str(e), SEQ)
         # operator* == reshape(current)
         inst = 'multidim_index_iterator<%d>::operator*' % nd
-        s = ir.summary(R, inst, 'K_deref%d' % nd, SEQ)
+        s = ir.summary(R, inst, 'K_deref%d' % nd, SEQ, **iopts)
         r = ir.summary(R, inst, 'K_reshape%d' % nd, SEQ)
         if s is not None and r is not None:
             n += 1
@@ -1581,7 +1614,7 @@ def check_iterators(ctx, ir):
         # ++
         c = sym('it[%d]' % cur)
         inst = 'multidim_index_iterator<%d>::operator++()' % nd
-        s = ir.summary(R, inst, 'K_preinc%d' % nd, SEQ)
+        s = ir.summary(R, inst, 'K_preinc%d' % nd, SEQ, **iopts)
         if s is not None:
             n += 1
             try:
@@ -1602,7 +1635,7 @@ def check_iterators(ctx, ir):
                 ctx.undecided(R, inst, 'pre-increment not written on every path or slot missing: %s' % e, SEQ)
             coherence(nd, cur, s, inst, 'operator++()')
         inst = 'multidim_index_iterator<%d>::operator++(int)' % nd
-        s = ir.summary(R, inst, 'K_postinc%d' % nd, SEQ)
+        s = ir.summary(R, inst, 'K_postinc%d' % nd, SEQ, **iopts)
         if s is not None:
             n += 1
             try:
